@@ -6,6 +6,7 @@ import PyProb.Driver.Bloom
 import PyProb.Driver.Expanding
 import PyProb.Driver.CMS
 import PyProb.Driver.Cuckoo
+import PyProb.Driver.QF
 
 namespace PyProb.Drv
 open PyProb
@@ -95,6 +96,7 @@ def step (st : St) (line : String) : St × String :=
                 else if cmd.startsWith "cb." then stepCBF st cmd h args
                 else if cmd.startsWith "cm." then stepCMS st cmd h args
                 else if cmd.startsWith "ck." then stepCuckoo st cmd h args
+                else if cmd.startsWith "qf." then stepQF st cmd h args
                 else if cmd.startsWith "xb." || cmd.startsWith "rb." then stepExpanding st cmd h args
                 else (st, "bad-op")
         | [] => (st, "bad-op")
